@@ -3,6 +3,7 @@ package store
 import (
 	"bufio"
 	"fmt"
+	"math"
 	"os"
 	"path/filepath"
 	"regexp"
@@ -33,7 +34,8 @@ func newIgnore() *Ignore {
 
 func (i *Ignore) load(rootGoitPath string) error {
 	goitignorePath := filepath.Join(filepath.Dir(rootGoitPath), ".goitignore")
-	if _, err := os.Stat(goitignorePath); os.IsNotExist(err) {
+	// only a regular file is a list of entries: a directory (or a pipe) of that name is part of the working tree
+	if info, err := os.Stat(goitignorePath); os.IsNotExist(err) || (err == nil && !info.Mode().IsRegular()) {
 		return nil
 	}
 	f, err := os.Open(goitignorePath)
@@ -43,6 +45,8 @@ func (i *Ignore) load(rootGoitPath string) error {
 	defer f.Close()
 
 	scanner := bufio.NewScanner(f)
+	// an entry may be longer than the scanner's default 64 KiB
+	scanner.Buffer(nil, math.MaxInt)
 	for scanner.Scan() {
 		text := scanner.Text()
 		if text == "" {
